@@ -94,6 +94,33 @@ def run(ctx):
                         ctx.violation('restart', 'two realizations start from the same affinity (no fresh noise)', {'case': e2e[c - 800000]})
                         break
                     seen.append(w)
+    # ---- the command line with --w on the Gallina front end (CliMain.cli_main) vs the real binary: well-formed files of every layout, and
+    #      mismatching files (must end abnormally, nothing written)
+    import cli, copy
+    if ctx.bdir:
+        wdc = vf.workdir()
+        cm = []
+        cidc = 780000
+        for variant in [v_ for v_ in gen.VARIANTS if v_[2]]:
+            for j in range(ctx.budget(2, 12)):
+                _line, m = cli.make_case(rng.fork('cw%d' % cidc), cidc, wdc, variant=variant)
+                cm.append(m)
+                cidc += 1
+        bad = []
+        for j, m0 in enumerate(cm[:ctx.budget(6, 30)]):
+            m = copy.deepcopy(m0)
+            m['cid'] = 790000 + j
+            a = list(m['args'])
+            open(os.path.join(m['dir'], 'w_bad.dat'), 'wb').write(files.mismatching_affinity(rng.fork('cb%d' % j), m['K'], m['L'])[0])
+            a[a.index('--w') + 1] = 'w_bad.dat'
+            if '--o' in a:
+                a[a.index('--o') + 1] = 'out_bad'
+            else:
+                a += ['--o', 'out_bad']
+            m['args'] = a
+            m['out'] = os.path.join(m['dir'], 'out_bad')
+            bad.append(m)
+        cli.compare_with_model(ctx, ctx.bdir, cm + bad, name='K-CLI(model, --w)')
     ctx.oracle.update({'evaluations': n_eval, 'distinct_nontrivial': len(keys),
                        'rule': 'read_affinity_data on generated files for every K in 2..5, L in 1..4, both models: well-formed files in several layouts (comment header, shuffled layers, tabs, blank lines) must put d_k on (k,k,layer) and leave the sentinels elsewhere; shape-mismatching files (columns +-1, ragged, extra/missing layer, layer id out of range or repeated, comment only, wrong K) must be rejected; start affinities of r = 2..4 realizations against file value + [0,0.1). distinct = (kind, K > 2, model, layout or mismatch kind)'})
     ctx.samples = [{'file': bytes.fromhex(cases[0].split()[6]).decode('latin-1')}]
